@@ -942,6 +942,8 @@ class Roi2dCorr(Corr):
 class C06(Prop):
     id = "C06"
     props_file = "Props/C06.v"
+    # redundant tie (core.gen_tie): these functions, translated from the source on every run, equal the hand model for all inputs
+    gen_tie_theorems = ['GenTie__get_height_intersection', 'GenTie__get_volume_intersection', 'GenTie_IOU3dMatching__calculate_matching_score', 'GenTie_IOU3dMatching__calculate_matching_score_outside', 'GenTie_IOU2dMatching__calculate_matching_score', 'GenTie_IOU2dMatching__calculate_matching_score_outside', 'GenTie_IOU2dMatching__calculate_matching_score_roi', 'GenTie_IOU2dMatching__calculate_matching_score_roi_outside', 'GenTie_CenterDistanceMatching__calculate_matching_score', 'GenTie_distance_objects', 'GenTie_get_position_error', 'GenTie_get_distance', 'GenTie_get_distance_bev']
     extra_props_files = ["Props/C06Clip.v"]
     gen_files = []
     design_ref = "DESIGN.md section 4, C06"
